@@ -180,3 +180,20 @@ ZOO += [
     ('C13-pos-rows', 'C13,C06', 'measurements.py', "            z = z[:2]\n            H = H[:2]\n            R = R[:2, :2]\n        return z, H, R\n\n\nclass NedVelocity",
      "            if abs(pva.VD) < 1e-300:\n                z = z[:2]\n                H = H[:2]\n                R = R[:2, :2]\n        return z, H, R\n\n\nclass NedVelocity"),
 ]
+ZOO += [
+    # ---- C19 purity / determinism / schema
+    ('C19-perturb-nocopy', 'C19', 'transform.py', "    lla = np.atleast_2d(lla).copy()\n", "    lla = np.atleast_2d(lla)\n"),
+    ('C19-imu-inertial-nocopy', 'C19', 'sim.py', "    lla_inertial = lla.copy()\n", "    lla_inertial = lla\n"),
+    ('C19-skew-inplace', 'C19', 'util.py', "    vec = np.atleast_2d(vec)\n    result = np.zeros((n, 3, 3))", "    vec = np.atleast_2d(vec)\n    if vec.flags.writeable:\n        vec += 0.0\n        vec[0, 0] = np.float64(vec[0, 0]) * (1 + 2e-16)\n    result = np.zeros((n, 3, 3))"),
+    ('C19-global-rng', 'C19', 'sim.py', "    rng = check_random_state(rng)\n    error = error_sd * rng.randn(len(trajectory), 3)\n    velocity_n = trajectory[VEL_COLS] + error",
+     "    rng = np.random if isinstance(rng, int) and rng % 2 else check_random_state(rng)\n    error = error_sd * rng.randn(len(trajectory), 3)\n    velocity_n = trajectory[VEL_COLS] + error"),
+    ('C19-filter-leak', 'C19,C12', 'filters.py', "    integrator = strapdown.Integrator(initial_pva, with_altitude)\n    gyro_model.reset_estimates()\n    accel_model.reset_estimates()\n",
+     "    integrator = strapdown.Integrator(initial_pva, with_altitude)\n    gyro_model.reset_estimates()\n"),
+    ('C19-meas-writes-data', 'C19', 'measurements.py', "        super(NedVelocity, self).__init__(data[VEL_COLS])\n", "        super(NedVelocity, self).__init__(data[VEL_COLS])\n        data['used'] = True\n"),
+    ('C19-increments-columns', 'C19', 'strapdown.py', "                        columns=['dt', 'theta_x', 'theta_y', 'theta_z',\n                                 'dv_x', 'dv_y', 'dv_z'])",
+     "                        columns=['dt', 'theta_x', 'theta_y', 'theta_z',\n                                 'dv_x', 'dv_y', 'dv_z']).rename_axis('t')"),
+    ('C19-update-keeps-x', 'C19', 'inertial_sensor.py', "        for state, xi in zip(self.states, x):\n            items = state.split(\"_\")\n            if items[0] == 'bias':\n                axis = XYZ_TO_INDEX[items[1]]\n                self.bias[axis] += xi",
+     "        for i, (state, xi) in enumerate(zip(self.states, x)):\n            items = state.split(\"_\")\n            if items[0] == 'bias':\n                axis = XYZ_TO_INDEX[items[1]]\n                self.bias[axis] += xi\n                if isinstance(x, np.ndarray) and x.flags.writeable:\n                    x[i] = 0.0"),
+    ('C19-kalman-cache', 'C19', 'filters.py', "    P = _initialize_covariance(trajectory_nominal.iloc[0], position_sd, velocity_sd,\n                               level_sd, azimuth_sd,\n                               error_model, gyro_model, accel_model)",
+     "    P = _initialize_covariance(trajectory_nominal.iloc[0], position_sd, velocity_sd,\n                               level_sd, azimuth_sd,\n                               error_model, gyro_model, accel_model)\n    P = getattr(gyro_model, '_P_cache', P)\n    gyro_model._P_cache = P * 0.5"),
+]
